@@ -69,7 +69,7 @@ func Extract(path string, data []byte) (ast.Expr, error) {
 }
 
 func extract(path string, b []byte) (ast.Expr, error) {
-	expr, err := parser.ParseExpr(path, b)
+	expr, err := parser.ParseExpr(path, escapeBOM(b))
 	if err != nil || !json.Valid(b) {
 		p := token.NoPos
 		if pos := errors.Positions(err); len(pos) > 0 {
@@ -88,6 +88,18 @@ func extract(path string, b []byte) (ast.Expr, error) {
 		return nil, errors.Wrapf(err, p, "invalid JSON")
 	}
 	return expr, nil
+}
+
+// escapeBOM replaces every byte order mark after the first byte of b by
+// its JSON escape. U+FEFF is an ordinary character inside a JSON string
+// (the only place valid JSON can have one), but the CUE scanner accepts it
+// only as the very first character of its input.
+func escapeBOM(b []byte) []byte {
+	const bom = "\uFEFF"
+	if len(b) == 0 || !bytes.Contains(b[1:], []byte(bom)) {
+		return b
+	}
+	return append(b[:1:1], bytes.ReplaceAll(b[1:], []byte(bom), []byte(`\ufeff`))...)
 }
 
 // NewDecoder configures a JSON decoder. The path is used to associate position
@@ -149,7 +161,7 @@ func (d *Decoder) extract() (ast.Expr, error) {
 		}
 		return nil, errors.Wrapf(err, pos, "invalid JSON")
 	}
-	expr, err := parser.ParseExpr(d.path, []byte(raw))
+	expr, err := parser.ParseExpr(d.path, escapeBOM(raw))
 	if err != nil {
 		return nil, err
 	}
